@@ -428,6 +428,7 @@ func (u *universe) concrete(r *rand.Rand, samples []uSample, types [][2]string) 
 		p.DocURL = []string{"http://a", "http://b"}[r.Intn(2)]
 	}
 	shift := uint64(r.Intn(3)) * 0x1000000
+	fixedMain := r.Intn(2) == 0
 	idbase := uint64(r.Intn(3)) * 50
 	mm := map[int]*profile.Mapping{}
 	ff := map[int]*profile.Function{}
@@ -441,6 +442,9 @@ func (u *universe) concrete(r *rand.Rand, samples []uSample, types [][2]string) 
 		}
 		um := u.maps[i]
 		start := 0x400000 + shift + uint64(i)*0x100000
+		if i == 0 && fixedMain {
+			start = 0x400000 // a non-relocatable executable: only the libraries move between runs
+		}
 		m := &profile.Mapping{ID: idbase + uint64(len(mm)+1), Start: start, Limit: start + um.size, Offset: um.offset, File: um.file, BuildID: um.build, HasFunctions: r.Intn(2) == 0}
 		mm[i] = m
 		p.Mapping = append(p.Mapping, m)
